@@ -14,6 +14,8 @@ def _one(st, v):
 @R.spec("builtins.len")
 def b_len(E, st, args, kw):
     v = args[0]
+    if isinstance(v, VBytes) and v.units is not None:
+        return _one(st, VInt(len(v.units)))
     if isinstance(v, (VBytes, VStr, VSeq)):
         return _one(st, VInt(z3.Length(v.e)))
     if isinstance(v, (VTuple, VList)):
@@ -157,7 +159,7 @@ def b_bytearray(E, st, args, kw):
     if not args:
         return _one(st, VBytes(z3.Empty(BytesS), "bytearray"))
     if isinstance(args[0], VBytes):
-        return _one(st, VBytes(args[0].e, "bytearray"))
+        return _one(st, VBytes(args[0].e, "bytearray", args[0].units))
     raise Unsupported("bytearray(%r)" % (args[0],))
 
 
@@ -166,14 +168,14 @@ def b_bytes(E, st, args, kw):
     if not args:
         return _one(st, VBytes(z3.Empty(BytesS)))
     if isinstance(args[0], VBytes):
-        return _one(st, VBytes(args[0].e, "bytes"))
+        return _one(st, VBytes(args[0].e, "bytes", args[0].units))
     raise Unsupported("bytes(%r)" % (args[0],))
 
 
 @R.spec("builtins.memoryview")
 def b_memoryview(E, st, args, kw):
     if isinstance(args[0], VBytes):
-        return _one(st, VBytes(args[0].e, "memoryview"))
+        return _one(st, VBytes(args[0].e, "memoryview", args[0].units))
     raise Unsupported("memoryview(%r)" % (args[0],))
 
 
@@ -312,7 +314,12 @@ def sys_exc_info(E, st, args, kw):
 
 @R.method("VBytes", "startswith")
 def by_startswith(E, st, recv, args, kw):
-    return _one(st, VBool(z3.PrefixOf(z(args[0]), recv.e)))
+    p = args[0]
+    if recv.units is not None and isinstance(p, VBytes) and p.units is not None:
+        if len(p.units) > len(recv.units):
+            return _one(st, VBool(False))
+        return _one(st, VBool(z3.And([x == y for x, y in zip(recv.units, p.units)]) if p.units else True))
+    return _one(st, VBool(z3.PrefixOf(z(p), recv.e)))
 
 
 @R.method("VBytes", "extend")
@@ -399,24 +406,35 @@ def i_to_bytes(E, st, recv, args, kw):
     return out
 
 
+def from_bytes_term(b):
+    """closed z3 term for int.from_bytes(b, 'big') of a byte sequence of length <= 8 (longer: uninterpreted)"""
+    ln = z3.Length(b)
+    maxlen = 8
+    if z3.is_app_of(b, z3.Z3_OP_SEQ_EXTRACT) and z3.is_int_value(z3.simplify(b.arg(2))):
+        maxlen = min(8, max(0, z3.simplify(b.arg(2)).as_long()))     # an extract of constant length c has length <= c
+    t = z3.Function("from_bytes_long", BytesS, IntS)(b) if maxlen == 8 else z3.IntVal(0)
+    for n in range(maxlen, -1, -1):
+        tot = z3.Sum([b[i] * (256 ** (n - 1 - i)) for i in range(n)]) if n > 1 else (b[0] if n == 1 else z3.IntVal(0))
+        t = z3.If(ln == n, tot, t)
+    return t
+
+
 @R.spec("builtins.int.from_bytes")
 def i_from_bytes(E, st, args, kw):
-    """int.from_bytes(b, 'big') for a byte sequence of statically bounded length (<= 8): sum of b[i]*256^(n-1-i);
-    elements are assumed to be bytes (0..255)"""
+    """int.from_bytes(b, 'big'): sum of b[i]*256^(n-1-i) for n = len(b) <= 8 (elements are bytes, 0..255)"""
     b = args[0]
     order = z3.simplify(args[1].e).as_string()
     if order != "big":
         raise Unsupported("from_bytes little")
-    ln = z3.Length(b.e)
-    # the contract user must make the length known on the path; we define the value through an uninterpreted
-    # function with the exact characterisation for lengths 0..8
-    val = fresh("from_bytes", IntS)
-    cases = []
-    for n in range(0, 9):
-        tot = z3.Sum([b.e[i] * (256 ** (n - 1 - i)) for i in range(n)]) if n else z3.IntVal(0)
-        cases.append(z3.Implies(ln == n, val == tot))
-    st.assume(*cases)
-    return _one(st, VInt(val))
+    if b.units is not None and len(b.units) <= 8:
+        n = len(b.units)
+        t = z3.Sum([u * (256 ** (n - 1 - i)) for i, u in enumerate(b.units)]) if n > 1 else (b.units[0] if n else z3.IntVal(0))
+        st.assume(t >= 0)
+        return _one(st, VInt(t))
+    t = from_bytes_term(b.e)
+    # a bytes-like object holds values 0..255, hence the result is a natural number (Seq(Int) alone does not say so)
+    st.assume(t >= 0)
+    return _one(st, VInt(t))
 
 
 # ----------------------------------------------------------------------------------------------------------------------
